@@ -685,8 +685,13 @@ class ExchangeRate:
         mult = Decimal(10) ** (unit_multiple.magnitude
                                - min(0, magnitude_term_amount + 1))
         assert isinstance(mult, Decimal)
+        amnt = term_amount * mult / unit_multiple
+        # given unit multiple may not be a power to 10
+        while amnt < Decimal("0.1"):
+            mult *= 10
+            amnt *= 10
         self._unit_multiple = mult
-        self._term_amount = Decimal(term_amount * mult / unit_multiple, 6)
+        self._term_amount = Decimal(amnt, 6)
 
     @property
     def unit_currency(self) -> Currency:
